@@ -33,8 +33,19 @@ func (fr *Frame) callResolved(st *State, c *ssa.CallCommon, fv Val, args []Val, 
 	case *Closure:
 		return fr.callFunc(st, f.Fn, args, f.Bindings, pos)
 	case Term:
-		// dynamic call through a function value: needs a contract on the value's type -- not modelled
-		unsupported("dynamic call through function value %s", c.Value.Name())
+		if clo, ok := r.closures[f.S]; ok {
+			return fr.callFunc(st, clo.Fn, args, clo.Bindings, pos)
+		}
+		// dynamic call through a function value loaded from a struct field: resolved by an (assumed) `dyn T.Field` contract
+		if prov, ok := r.funcProv[f.S]; ok {
+			key := "dyn " + prov
+			if fc := r.eng.contracts[key]; fc != nil {
+				r.externs[key] = true
+				return fr.callContract(st, c.Signature(), nil, fc, args, pos, key)
+			}
+			unsupported("dynamic call through %s: no `extern func dyn %s` contract", c.Value.Name(), prov)
+		}
+		unsupported("dynamic call through function value %s (%s; known: %v)", c.Value.Name(), f.S, r.funcProv)
 	}
 	_ = r
 	unsupported("call of %T", fv)
@@ -122,7 +133,7 @@ func (fr *Frame) argSV(v Val, T types.Type) SV {
 	case FuncRef:
 		return SV{t: fr.run.funcRefTerm(x.Fn), T: T, fn: x.Fn}
 	case *Closure:
-		return SV{t: fr.run.funcRefTerm(x.Fn), T: T, fn: x.Fn, clo: x}
+		return SV{t: fr.run.closureTerm(x), T: T, fn: x.Fn, clo: x}
 	}
 	unsupported("argument of kind %T", v)
 	return SV{}
